@@ -142,33 +142,38 @@ Fixpoint c06_walk (k : option nat) (inflight : list N) (incb : list N) (h : hist
 Definition is_final_failure (evs : list scev) (rt : retr) : bool :=
   attempt_failed evs && match rt with Some (_, l) => l =? 0 | None => true end.
 Fixpoint fills_walk (k : option nat) (items : list item) (seen : hist) (inflight : list N) (started : list N)
-                    (tripped : bool) (ff : bool) (h : hist) : bool :=
+                    (pending : nat) (tripped : bool) (ff : bool) (h : hist) : bool :=
   match h with
   | [] => true
   | (r, tm) :: t =>
     let seen' := seen ++ [(r, tm)] in
     match r with
-    | HEv (EvScen _ _ s _ ScStarted) => fills_walk k items seen' (s :: inflight) (s :: started) tripped ff t
+    | HEv (EvScen _ _ s _ ScStarted) =>
+      fills_walk k items seen' (s :: inflight) (s :: started) (pred pending) tripped ff t
     | HEv (EvScen _ _ s rt ScFinished) =>
       let evs := flat_map (fun x => match x with EvScen _ _ s' rt' e => if (s' =? s) && retr_eqb rt rt' then [e] else [] | _ => [] end)
                           (events_of seen') in
-      fills_walk k items seen' (filter (fun x => negb (x =? s)) inflight) started
+      fills_walk k items seen' (filter (fun x => negb (x =? s)) inflight) started pending
                  (tripped || (ff && is_final_failure evs rt)) ff t
     | HTop 0 =>
-      (if ltK (length inflight) k && negb tripped then
-         forallb (fun f => forallb (fun sc =>
-             memN (ss_id sc) started
-             || (ss_serial sc && negb (is_nil inflight))) (sf_scens f)) (ingested items seen')
+      (* `pending` attempts were dispatched by earlier turns but have not emitted Started yet *)
+      (if ltK (length inflight + pending) k && negb tripped then
+         let scs := flat_map sf_scens (ingested items seen') in
+         let waiting := filter (fun sc => negb (memN (ss_id sc) started)) scs in
+         let truly := (length waiting - pending)%nat in
+         Nat.eqb truly 0
+         || (Nat.leb truly (length (filter ss_serial waiting)) && Nat.ltb 0 (length inflight + pending))
        else true)
-      && fills_walk k items seen' inflight started tripped ff t
-    | _ => fills_walk k items seen' inflight started tripped ff t
+      && fills_walk k items seen' inflight started pending tripped ff t
+    | HTop b => fills_walk k items seen' inflight started (pending + N.to_nat b) tripped ff t
+    | _ => fills_walk k items seen' inflight started pending tripped ff t
     end
   end.
 
 Definition strip_passthrough (es : list ev) : list ev := es.
 Definition c06_ok (k : option nat) (ff : bool) (items : list item) (h : hist) : bool :=
   c06_walk k [] [] h
-  && fills_walk k items [] [] [] false ff h
+  && fills_walk k items [] [] [] 0 false ff h
   (* events of an attempt lie between its Started and Finished (contract), so with a limit of 1 the bound
      above already says that attempts run strictly one after another and never interleave *)
   && contract_prefix (events_of h).
